@@ -423,7 +423,7 @@ pub fn run(ctx: &Ctx) {
 
     // (ii) exhaustive enumeration of the 2-event scripts
     if want("enum") {
-        let budget = ctx.cases(300, 40_000);
+        let budget = ctx.cases(300, 6_000);
         let scripts = [vec![Ev::Open, Ev::Symbols], vec![Ev::Open, Ev::Save], vec![Ev::Open, Ev::Change(1)], vec![Ev::Open, Ev::Open]];
         let results: Vec<(usize, u64, u64, bool)> = std::thread::scope(|sc| {
             let hs: Vec<_> = scripts
@@ -486,7 +486,7 @@ pub fn run(ctx: &Ctx) {
 
     // (iii) random scripts and schedules
     if want("random") && real_failures.load(std::sync::atomic::Ordering::Relaxed) == 0 {
-        let cases = ctx.cases(640, 60_000);
+        let cases = ctx.cases(640, 30_000);
         let out = run_prop(ctx, 24, cases, strategy, |c| {
             let o = execute(&c.script, &mut VecChooser { v: &c.schedule }).map_err(|e| format!("HARNESS\u{1}{e}"));
             let o = match o {
